@@ -1522,6 +1522,11 @@ func (e *wireExec) Do(op []string) string {
 		if strings.HasPrefix(status, "206:") && (err == nil || strconv.Itoa(n) != status[4:]) {
 			e.fail("transmit-result-wrong: server answered %s, Transmit returned n=%d err=%v", status, n, err)
 		}
+		if status != "200" && !strings.HasPrefix(status, "206:") && (err == nil || n != 0) {
+			// a refusal (400, 403, 500, 503, ...) acknowledges nothing: handleSendError takes n > 0 as the receiver's count
+			// of recorded parts, skips the recovery question and hands the parts to the tracker as transmitted
+			e.fail("transmit-result-wrong: server answered %s, Transmit returned n=%d err=%v (a refused request acknowledges no part)", status, n, err)
+		}
 		prep := "-"
 		if g.preps > 0 {
 			prep = strconv.Itoa(len(g.prep))
@@ -1859,9 +1864,35 @@ func wGenParts(r *Rand, kind int, stageOk bool, wild bool, sep string, shortFile
 			}
 		}
 		end := beg + ln
+		// more chunks of the SAME file in the same payload (same name, hash, size, time): the next chunk, a chunk after
+		// a gap (only the missing ranges of a partly received file are sent after a restart), a chunk in front (parts
+		// reordered by Bin.Remove): the encoder must read each part at its own offset
+		type wRng struct{ b, e int64 }
+		var more []wRng
+		if kind != 2 && r.Chance(0.35) {
+			pe := end
+			for k := r.Range(1, 2); k > 0; k-- {
+				l2 := ln
+				if kind == 0 {
+					l2 = int64(r.Range(1, 40))
+				}
+				if r.Chance(0.2) && beg >= l2 {
+					more = append(more, wRng{beg - l2, beg})
+				} else {
+					gap := int64([]int{0, 0, 1, 7, 40}[r.Intn(5)])
+					more = append(more, wRng{pe + gap, pe + gap + l2})
+					pe += gap + l2
+				}
+			}
+		}
 		size := end
+		for _, m := range more {
+			if m.e > size {
+				size = m.e
+			}
+		}
 		if r.Chance(0.5) || stageOk {
-			size = end + int64(r.Range(1, 1000))
+			size += int64(r.Range(1, 1000))
 		}
 		flen := size
 		if shortFiles && r.Chance(0.5) {
@@ -1900,6 +1931,14 @@ func wGenParts(r *Rand, kind int, stageOk bool, wild bool, sep string, shortFile
 		g.total += int(ln)
 		if int(ln) > g.maxLen {
 			g.maxLen = int(ln)
+		}
+		for _, m := range more {
+			g.lines = append(g.lines, wPartLine(name, renamed, p, hash, sec, nano, size, m.b, m.e, flen, seed))
+			g.ds = append(g.ds, wDesc{name, renamed, p, hash, sec, nano, size, m.b, m.e})
+			g.total += int(m.e - m.b)
+			if int(m.e-m.b) > g.maxLen {
+				g.maxLen = int(m.e - m.b)
+			}
 		}
 		prev = name
 	}
